@@ -290,6 +290,13 @@ func (h *itHandle) collect(c *Ctx, p *packages.Package, outer *ast.FuncDecl, sta
 	info := p.TypesInfo
 	var stack []ast.Node
 	bodyStack := []*itBody{startBody}
+	// local closures that are only ever called (never started with go, never passed around) are part of
+	// the body that calls them: their events are recorded at the call site (extracting a block into a
+	// local closure must not change the model)
+	syncLits := syncClosures(info, outer, lits)
+	var inlineNode ast.Node
+	var inlinePath []ast.Node
+	inlining := map[*ast.FuncLit]bool{}
 	var walk func(n ast.Node)
 	cur := func() *itBody { return bodyStack[len(bodyStack)-1] }
 	pathCopy := func() []ast.Node { return append([]ast.Node(nil), stack...) }
@@ -301,6 +308,13 @@ func (h *itHandle) collect(c *Ctx, p *packages.Package, outer *ast.FuncDecl, sta
 		defer func() { stack = stack[:len(stack)-1] }()
 		switch x := n.(type) {
 		case *ast.FuncLit:
+			if syncLits[x] && !inlining[x] {
+				return // walked at its call sites
+			}
+			if inlining[x] {
+				walk(x.Body)
+				return
+			}
 			b := h.bodies[x]
 			if b == nil {
 				b = &itBody{pkg: p, fn: x, body: x.Body, outer: outer, index: -1, label: "func"}
@@ -349,9 +363,21 @@ func (h *itHandle) collect(c *Ctx, p *packages.Package, outer *ast.FuncDecl, sta
 			}
 			h.launches = append(h.launches, l)
 		case *ast.CallExpr:
+			if id, ok := ast.Unparen(x.Fun).(*ast.Ident); ok && inlineNode == nil {
+				if lit := lits[info.ObjectOf(id)]; lit != nil && syncLits[lit] && !inlining[lit] {
+					inlining[lit] = true
+					inlineNode, inlinePath = x, pathCopy()
+					walk(lit)
+					inlineNode, inlinePath = nil, nil
+					delete(inlining, lit)
+				}
+			}
 			if sel, ok := ast.Unparen(x.Fun).(*ast.SelectorExpr); ok && itMethods[sel.Sel.Name] && denotes(sel.X) {
 				if fn := callee(info, x); fn != nil && fullName(fn) == modPath+"/pkg/obiiter.(IBioSequence)."+sel.Sel.Name {
 					ev := &itEvent{kind: sel.Sel.Name, call: x, body: cur(), node: x, path: pathCopy()}
+					if inlineNode != nil {
+						ev.node, ev.path = inlineNode, inlinePath
+					}
 					if len(x.Args) > 0 {
 						ev.arg = x.Args[0]
 					}
@@ -362,7 +388,11 @@ func (h *itHandle) collect(c *Ctx, p *packages.Package, outer *ast.FuncDecl, sta
 			// X.pointer.channel <- batch
 			if s1, ok := ast.Unparen(x.Chan).(*ast.SelectorExpr); ok && s1.Sel.Name == "channel" {
 				if s2, ok := ast.Unparen(s1.X).(*ast.SelectorExpr); ok && s2.Sel.Name == "pointer" && denotes(s2.X) {
-					h.events = append(h.events, &itEvent{kind: "Push", send: x, arg: x.Value, body: cur(), node: x, path: pathCopy()})
+					ev := &itEvent{kind: "Push", send: x, arg: x.Value, body: cur(), node: x, path: pathCopy()}
+					if inlineNode != nil {
+						ev.node, ev.path = inlineNode, inlinePath
+					}
+					h.events = append(h.events, ev)
 				}
 			}
 		case *ast.AssignStmt:
@@ -437,3 +467,53 @@ func (h *itHandle) producers() []*itBody {
 }
 
 func (h *itHandle) key() string { return funcName(h.pkg, h.fd) + ":" + h.name }
+
+// syncClosures: the function literals bound to a local variable of outer that is only used as the callee
+// of ordinary calls (at least one), never in a go statement and never as a value.
+func syncClosures(info *types.Info, outer *ast.FuncDecl, lits map[types.Object]*ast.FuncLit) map[*ast.FuncLit]bool {
+	calls := map[types.Object]int{}
+	other := map[types.Object]int{}
+	var stack []ast.Node
+	ast.Inspect(outer.Body, func(n ast.Node) bool {
+		if n == nil {
+			stack = stack[:len(stack)-1]
+			return true
+		}
+		stack = append(stack, n)
+		id, ok := n.(*ast.Ident)
+		if !ok {
+			return true
+		}
+		o := info.Uses[id]
+		if o == nil || lits[o] == nil {
+			return true
+		}
+		// parent / grand-parent
+		var par, gpar ast.Node
+		if len(stack) >= 2 {
+			par = stack[len(stack)-2]
+		}
+		if len(stack) >= 3 {
+			gpar = stack[len(stack)-3]
+		}
+		if call, ok := par.(*ast.CallExpr); ok && ast.Unparen(call.Fun) == ast.Expr(id) {
+			if g, ok := gpar.(*ast.GoStmt); ok && g.Call == call {
+				other[o]++
+			} else if d, ok := gpar.(*ast.DeferStmt); ok && d.Call == call {
+				other[o]++
+			} else {
+				calls[o]++
+			}
+			return true
+		}
+		other[o]++
+		return true
+	})
+	out := map[*ast.FuncLit]bool{}
+	for o, lit := range lits {
+		if calls[o] > 0 && other[o] == 0 {
+			out[lit] = true
+		}
+	}
+	return out
+}
